@@ -178,6 +178,33 @@ def tool_oracle(data):
     return b"".join(l + b"\n" for l in lines if py_is_utf8(l))
 
 
+def shrink(impl, op, data, expect_fn, budget=12):
+    """delta-debugging on bytes: the smallest input found on which the implementation still disagrees with the oracle
+    (candidates of one round are evaluated in one harness run)"""
+    cur = data
+    for _ in range(budget):
+        cands = []
+        n = len(cur)
+        k = max(1, n // 2)
+        while k >= 1:
+            for i in range(0, n, k):
+                cand = cur[:i] + cur[i + k:]
+                if len(cand) < n and cand not in cands:
+                    cands.append(cand)
+            k //= 2
+        if not cands:
+            break
+        cands = cands[:400]
+        rc, out, err = run_lines(impl, ["%s %s" % (op, hexs(x)) for x in cands])
+        if len(out) != len(cands):
+            break
+        better = [x for x, o in zip(cands, out) if o != expect_fn(x)]
+        if not better:
+            break
+        cur = min(better, key=len)
+    return cur
+
+
 def load_replay(c):
     if not c.replay:
         return None
@@ -293,9 +320,15 @@ def main(argv):
                 c.violation("decode/%s: DecodeUTF8(%s) gave %s, Unicode Table 3-7 says %s" % (kind, hexs(b), o, want),
                             {"op": "DecodeUTF8", "input_hex": hexs(b), "impl": o, "expected": want,
                              "how": "echo 'D %s' | hx_utf8" % hexs(b)})
+        shrunk = set()
         for b, o in zip(U, out[nD:nD + nU]):
             want = "T" if py_is_utf8(b) else "F"
             if o != want:
+                if "U" not in shrunk and len(b) > 6:      # minimise the first failing input
+                    shrunk.add("U")
+                    b = shrink(impl, "U", b, lambda x: "T" if py_is_utf8(x) else "F")
+                    want = "T" if py_is_utf8(b) else "F"
+                    o = "F" if want == "T" else "T"
                 c.violation("is_utf8/%s: IsUTF8(%s) = %s but the string is %s" % ("ill-formed-accepted" if want == "F" else "well-formed-rejected", hexs(b), o,
                                                                                  "well-formed" if want == "T" else "ill-formed"),
                             {"op": "IsUTF8", "input_hex": hexs(b), "impl": o, "expected": want,
@@ -303,6 +336,16 @@ def main(argv):
         for b, o in zip(I, out[nD + nU:len(lines)]):
             okk, items = py_items(b)
             want = ("OK" if okk else "BAD") + "".join(" %d:%d" % it for it in items)
+            if o != want and "I" not in shrunk and len(b) > 6:
+                shrunk.add("I")
+
+                def want_items(x):
+                    k2, it2 = py_items(x)
+                    return ("OK" if k2 else "BAD") + "".join(" %d:%d" % t for t in it2)
+                b = shrink(impl, "I", b, want_items)
+                want = want_items(b)
+                rc3, o3, _ = run_lines(impl, ["I " + hexs(b)])
+                o = o3[0] if o3 else o
             if o != want:
                 c.violation("iterator: DecodeUTF8Iterator over %s visited %r, expected %r" % (hexs(b), o, want),
                             {"op": "iterator", "input_hex": hexs(b), "impl": o, "expected": want})
